@@ -170,6 +170,57 @@ func runRelC03(m *Model, c relC03) []Diff {
 	if m3 == nil && m4 == nil {
 		diffs = append(diffs, cmp("mkdir+massive: From-Root vs From-Markdown", rel(j3, snapshot(j3)), rel(j4, snapshot(j4)))...)
 	}
+	// the root is already there in the target directory (as a directory with something in it, as a file): both
+	// API families judge the names first and the existing root second, create nothing, and say the same
+	for vi, pre := range [][]FSEntry{{{"t", "d"}, {"t/" + c.Root, "d"}, {"t/" + c.Root + "/old", "f1"}}, {{"t", "d"}, {"t/" + c.Root, "f3"}}} {
+		if (len(c.Ops)+vi)%2 == 0 && len(c.Ops) > 3 {
+			continue // every program gets one of the two states, short ones both
+		}
+		type run struct {
+			what    string
+			massive bool
+			call    func(opts ...gtree.Option) error
+		}
+		runs := []run{
+			{"MkdirFromMarkdown", false, func(o ...gtree.Option) error { return gtree.MkdirFromMarkdown(bytes.NewReader(doc), o...) }},
+			{"MkdirFromRoot", false, func(o ...gtree.Option) error { return gtree.MkdirFromRoot(root, o...) }},
+			{"MkdirProgrammably", false, func(o ...gtree.Option) error { return gtree.MkdirProgrammably(root, o...) }},
+			{"MkdirFromMarkdown+massive", true, func(o ...gtree.Option) error { return gtree.MkdirFromMarkdown(bytes.NewReader(doc), o...) }},
+			{"MkdirFromRoot+massive", true, func(o ...gtree.Option) error { return gtree.MkdirFromRoot(root, o...) }},
+			{"MkdirProgrammably+massive", true, func(o ...gtree.Option) error { return gtree.MkdirProgrammably(root, o...) }},
+		}
+		var ref string
+		for ri, r := range runs {
+			j := newJail()
+			populate(j, pre)
+			before := rel(j, snapshot(j))
+			o := []gtree.Option{gtree.WithTargetDir(filepath.Join(j, "t")), gtree.WithFileExtensions(c.Exts)}
+			if r.massive {
+				o = append(o, gtree.WithMassive(context.Background()))
+			}
+			err := r.call(o...)
+			got := rel(j, snapshot(j)) + " e=" + classify(err)
+			if r.massive {
+				got = rel(j, snapshot(j)) + " e=" + errClass(classify(err))
+			}
+			if ri == 0 {
+				ref = got
+				// the Markdown counterpart itself: nothing is created when the root exists, and the model agrees
+				diffs = append(diffs, cmp("mkdir with the root already there: From-Markdown creates nothing", strings.SplitN(got, " e=", 2)[0], before)...)
+				mc := newCase("mkdir")
+				mc.FromRoot, mc.Tree, mc.Exts, mc.Target, mc.Pre = true, mirror.Enc(), c.Exts, "t", pre
+				md, _ := runMkdir(m, mc)
+				diffs = append(diffs, md...)
+			} else {
+				want := ref
+				if r.massive {
+					want = strings.SplitN(ref, " e=", 2)[0] + " e=" + errClass(strings.SplitN(ref, " e=", 2)[1])
+				}
+				diffs = append(diffs, cmp("mkdir with the root already there: "+r.what+" vs MkdirFromMarkdown", got, want)...)
+			}
+			os.RemoveAll(j)
+		}
+	}
 	v1 := gtree.VerifyFromRoot(root, gtree.WithTargetDir(t1), gtree.WithStrictVerify())
 	v2 := gtree.VerifyFromMarkdown(bytes.NewReader(doc), gtree.WithTargetDir(t1), gtree.WithStrictVerify())
 	diffs = append(diffs, cmp("verify: From-Root vs From-Markdown", classifyRel(v1, j1), classifyRel(v2, j1))...)
